@@ -318,6 +318,18 @@ also('C20', 'an eigenvector taken from eigh / eigsh is a column `[:, k]`, never 
             'never receives whole items of a sequence derived from the (possibly complex) input (DT4); an if/elif dispatch on an asserted enumeration (method, kind, key) '
             'covers every admitted literal (EX1, 3 chains).')
 
+# ---- clauses added with the round-4 rules (DESIGN.md 4, "Round-4 batch")
+also('C01', 'arrays with an open batch shape are reduced along negative axes (AX1); a hand-written softmax shifts by the per-sample maximum (SM1); no literal sin(r)/r (SINC1).')
+also('C03', 'the sweep over the gate list dispatches every gate - no continue / break (D6, 7 sweeps); the apply_* primitives never re-normalise by a data-dependent trace / norm '
+            '(NR1); no angle is reduced modulo a multiple of pi in numqi.sim / numqi.gate (PG1).')
+also('C04', 'forward / backward of every autograd Function store only into ctx and local objects (A10, 10 methods); no *_grad primitive branches on the numeric content of the '
+            'operator (A11); a memo key compared with an argument is stored as a copy (AL3, closures included).')
+also('C07', 'every formulation of the ordering-phase term of clifford_multiply puts the Z-half of Sy on the first index of the strict upper triangle (H9); no flattened state '
+            'stands on the left of `@` with an operator on the right (VM1).')
+also('C08', 'integer bit weights are never cast to a floating dtype (PR1); the qubit count of a batch of strings is never the dtype storage width (E6).')
+also('C09', 'no floating-point linear algebra in the GF(2) modules (DT5); a NumPy bounded sampler never takes a bound derived from an arbitrary-precision group order (S5).')
+also('C10', 'a NumPy bounded sampler never takes a bound derived from an arbitrary-precision integer (S5: valid for every n, not only n <= 31).')
+
 for _p in sorted(CLAIMS):
     also(_p, 'no function outside the reviewed set of 24 memoised functions is decorated with lru_cache / cache (or keeps a module-level memo) while returning an unfrozen '
              'NumPy / torch object (MC3: no new shared mutable result in the modules of this property; package-wide in the thorough tier); no function of those modules writes in place into (a view of) an '
